@@ -85,6 +85,11 @@ HARMLESS = [
      "    fn pause_timers(&mut self) {\n        self.timer.ack.pause();\n        self.timer.inactivity.pause();\n    }\n\n    pub fn suspend(&mut self) -> TransactionResult<()> {\n        self.pause_timers();\n        self.state = TransactionState::Suspended;", {"C19": 0}),
     ("send-extract-helper-forgets-inactivity", SEND, "    pub fn suspend(&mut self) -> TransactionResult<()> {\n        self.timer.ack.pause();\n        self.timer.inactivity.pause();\n        self.state = TransactionState::Suspended;",
      "    fn pause_timers(&mut self) {\n        self.timer.ack.pause();\n    }\n\n    pub fn suspend(&mut self) -> TransactionResult<()> {\n        self.pause_timers();\n        self.state = TransactionState::Suspended;", {"C19": 1}),
+    ("filestore-strip-prefix-match", FS, "        let relative = path.strip_prefix(&self.root_path).unwrap_or(path);", "        let relative = match path.strip_prefix(&self.root_path) {\n            Ok(rest) => rest,\n            Err(_) => path,\n        };", {"C12": 0}),
+    ("transport-named-slice", "cfdp-daemon/src/transport.rs", "        match PDU::decode(&mut &self.buffer[..n]) {", "        let datagram = &self.buffer[..n];\n        match PDU::decode(&mut &datagram[..]) {", {"C16": 0}),
+    ("recv-delivery-code-match", RECV, "        self.delivery_code = if self.has_naks() {\n            DeliveryCode::Incomplete\n        } else {\n            DeliveryCode::Complete\n        };", "        self.delivery_code = match self.has_naks() {\n            true => DeliveryCode::Incomplete,\n            false => DeliveryCode::Complete,\n        };", {"C18": 0, "C13": 0, "C04": 0}),
+    ("send-cancel-order", SEND, "        self.timer.inactivity.pause();\n        self.condition = condition;\n        self.send_state = SendState::Cancelled;", "        self.condition = condition;\n        self.send_state = SendState::Cancelled;\n        self.timer.inactivity.pause();", {"C10": 0, "C03": 0, "C17": 0}),
+    ("recv-resume-nested-if", RECV, "                if self.config.transmission_mode == TransmissionMode::Acknowledged\n                    && (matches!(self.nak_procedure, NakProcedure::Immediate(_))\n                        || self.eof_received())\n                {", "                if self.config.transmission_mode == TransmissionMode::Acknowledged\n                    && (self.eof_received()\n                        || matches!(self.nak_procedure, NakProcedure::Immediate(_)))\n                {", {"C18": 0, "C19": 0}),
     ("timer-comment", TIM, "        let now = Instant::now();\n        while", "        let now = Instant::now();\n        // count the expirations\n        while", {"C17": 0}),
 ]
 
